@@ -292,6 +292,15 @@ func checkC02Tags(p *Prog, r *Report, md *ssa.Function) {
 		}
 		k, ok := constString(mu.Key)
 		if !ok {
+			// a table of {name, value} pairs walked by a loop
+			if ents := tableEntries(mu); len(ents) > 0 {
+				for _, en := range ents {
+					n++
+					seen[en.field] = true
+					r.decide(etags[en.field] == en.name, "R5.tag-tables", "Error:"+en.name, p.pos(mu.Pos()), "Error."+en.field+" written under its own json tag (table entry)", fmt.Sprintf("Error.MarshalJSON writes member %q from field %s whose json tag is %q: it does not come back into that field", en.name, en.field, etags[en.field]))
+				}
+				return
+			}
 			r.bad("R5.tag-tables", "Error:computed-key:"+p.describe(mu), p.pos(mu.Pos()), "an error member with a computed name")
 			return
 		}
@@ -507,10 +516,17 @@ func checkC02Order(p *Prog, r *Report, md, ud, mc, uc *ssa.Function) {
 		{uc, "UnmarshalCollection", func(cl *countedLoop) bool { return cl.srcIs == "slice" },
 			func(ins ssa.Instruction) (ssa.Value, bool) {
 				c, ok := ins.(*ssa.Call)
-				if !ok || add == nil || c.Common().StaticCallee() != add {
+				if !ok {
 					return nil, false
 				}
-				return c.Common().Args[1], true
+				if add != nil && c.Common().StaticCallee() == add {
+					return c.Common().Args[1], true
+				}
+				// or a plain append to the list being built
+				if e := appendElem(c); e != nil {
+					return e, true
+				}
+				return nil, false
 			}},
 		{ud, "UnmarshalDocument:included", func(cl *countedLoop) bool { return cl.srcIs == "slice" && fieldIs(cl.src, "Included") },
 			func(ins ssa.Instruction) (ssa.Value, bool) {
@@ -550,7 +566,11 @@ func checkC02Order(p *Prog, r *Report, md, ud, mc, uc *ssa.Function) {
 		var chosen *countedLoop
 		var emits []ssa.Instruction
 		var emitted ssa.Value
-		for _, cl := range findCountedLoops(sp.fn) {
+		var cands []*countedLoop
+		for _, g := range append([]*ssa.Function{sp.fn}, stringHelpers(sp.fn)...) {
+			cands = append(cands, findCountedLoops(g)...)
+		}
+		for _, cl := range cands {
 			if !sp.isSource(cl) {
 				continue
 			}
@@ -616,8 +636,22 @@ func checkC02Order(p *Prog, r *Report, md, ud, mc, uc *ssa.Function) {
 				return
 			}
 			arg := unbox(c.Common().Args[0])
-			if strings.HasPrefix(sp.what, "MarshalDocument") && fieldIs(arg, "Included") && c.Block().Dominates(chosen.header) {
-				return // the canonical order of included, applied before emission (C11)
+			if strings.HasPrefix(sp.what, "MarshalDocument") && fieldIs(arg, "Included") {
+				if c.Block().Dominates(chosen.header) {
+					return // the canonical order of included, applied before emission (C11)
+				}
+				// the emitting loop lives in a phase helper: the sort precedes its call
+				if g := chosen.header.Parent(); g != sp.fn {
+					before := false
+					eachInstr(sp.fn, func(i2 ssa.Instruction) {
+						if hc, ok := i2.(*ssa.Call); ok && hc.Common().StaticCallee() == g && (c.Block().Dominates(hc.Block())) {
+							before = true
+						}
+					})
+					if before {
+						return
+					}
+				}
 			}
 			reorder = p.describe(c) + " at " + p.pos(c.Pos())
 		})
@@ -871,13 +905,35 @@ func checkC02Flow(p *Prog, r *Report, md, ud *ssa.Function) {
 		implied[fmt.Sprintf("%s=%v", condString(ef.Cond, 0), ef.Truth)] = true
 	}
 	nInc := 0
+	type incLoop struct {
+		cl    *countedLoop
+		facts []edgeFact
+	}
+	var incLoops []incLoop
 	for _, cl := range findCountedLoops(md) {
+		incLoops = append(incLoops, incLoop{cl, factsAt(cl.header)})
+	}
+	// the inclusion loop may live in a phase helper: the conditions are then those
+	// inside the helper plus those that dominate its call
+	for _, g := range stringHelpers(md) {
+		var callFacts []edgeFact
+		eachInstr(md, func(ins ssa.Instruction) {
+			if c, ok := ins.(*ssa.Call); ok && c.Common().StaticCallee() == g {
+				callFacts = factsAt(c.Block())
+			}
+		})
+		for _, cl := range findCountedLoops(g) {
+			incLoops = append(incLoops, incLoop{cl, append(append([]edgeFact{}, factsAt(cl.header)...), callFacts...)})
+		}
+	}
+	for _, il := range incLoops {
+		cl := il.cl
 		if _, fl, ok := fieldLoad(cl.src); !ok || fl != "Included" {
 			continue
 		}
 		nInc++
 		good, why := true, ""
-		for _, ef := range expandFacts(factsAt(cl.header)) {
+		for _, ef := range expandFacts(il.facts) {
 			cs := condString(ef.Cond, 0)
 			if strings.Contains(cs, "Included") && strings.Contains(cs, "len(") {
 				continue // the list is not empty
@@ -1055,4 +1111,94 @@ func containsToken(s, tok string) bool {
 		}
 		i = end
 	}
+}
+
+type tableEntry struct{ name, field string }
+
+// tableEntries: mu stores m[x.K] = x.V where x is the current element of a
+// literal table of structs whose K fields are constants and whose V fields are
+// loads of fields of one struct value; the (constant, field) pairs.
+func tableEntries(mu *ssa.MapUpdate) []tableEntry {
+	kb, kf, ok := fieldLoad(mu.Key)
+	if !ok {
+		return nil
+	}
+	vb, vf, ok := fieldLoad(unbox(mu.Value))
+	if !ok || vb != kb {
+		return nil
+	}
+	// the element: a loop variable holding table[i], or table[i] itself
+	elem := kb
+	if al, isAl := elem.(*ssa.Alloc); isAl {
+		var sv ssa.Value
+		for _, ref := range referrers(al) {
+			if st, ok := ref.(*ssa.Store); ok && st.Addr == ssa.Value(al) {
+				sv = st.Val
+			}
+		}
+		if sv == nil {
+			return nil
+		}
+		elem = sv
+	}
+	if ld, isLd := elem.(*ssa.UnOp); isLd && ld.Op == token.MUL {
+		elem = ld.X
+	}
+	ia, isIA := elem.(*ssa.IndexAddr)
+	if !isIA {
+		return nil
+	}
+	var arr *ssa.Alloc
+	switch x := ia.X.(type) {
+	case *ssa.Slice:
+		arr, _ = x.X.(*ssa.Alloc)
+	case *ssa.Alloc:
+		arr = x
+	}
+	if arr == nil {
+		return nil
+	}
+	names := map[int64]string{}
+	fields := map[int64]string{}
+	for _, ref := range referrers(arr) {
+		ea, ok := ref.(*ssa.IndexAddr)
+		if !ok {
+			continue
+		}
+		idx, ok := constInt(ea.Index)
+		if !ok {
+			continue
+		}
+		for _, r2 := range referrers(ea) {
+			fa, ok := r2.(*ssa.FieldAddr)
+			if !ok {
+				continue
+			}
+			_, fname := fieldRef(fa.X, fa.Field)
+			for _, r3 := range referrers(fa) {
+				st, ok := r3.(*ssa.Store)
+				if !ok {
+					continue
+				}
+				if fname == kf {
+					if c, ok := constString(st.Val); ok {
+						names[idx] = c
+					}
+				}
+				if fname == vf {
+					if _, fl, ok := fieldLoad(st.Val); ok {
+						fields[idx] = fl
+					}
+				}
+			}
+		}
+	}
+	var out []tableEntry
+	for idx, nm := range names {
+		if fl, ok := fields[idx]; ok {
+			out = append(out, tableEntry{nm, fl})
+		}
+	}
+	sort.Slice(out, func(i, j int) bool { return out[i].name < out[j].name })
+	return out
 }
